@@ -66,7 +66,8 @@ func (m *Model) routeOpts(n *Notif) (repMin, repMax, giMin, giMax, gwMin Dur, ok
 	repMin, giMin, gwMin = math.MaxInt64, math.MaxInt64, math.MaxInt64
 	for r := range m.RoutesOf(n) {
 		ok = true
-		repMin, repMax = min(repMin, r.RepeatInterval), max(repMax, r.RepeatInterval)
+		rep := m.repAt(r, n.T)
+		repMin, repMax = min(repMin, rep), max(repMax, rep)
 		giMin, giMax = min(giMin, r.GroupInterval), max(giMax, r.GroupInterval)
 		gwMin = min(gwMin, r.GroupWait)
 	}
@@ -178,6 +179,13 @@ func checkJustified(prop string, m *Model, v *Verdict) {
 			if m.retention() < thr {
 				thr = m.retention()
 			}
+			// the entry written for n1 lives min(retention, 2*repeat_interval as configured
+			// then); after a reload that raised repeat_interval it can be gone earlier
+			for r := range m.RoutesOf(n2) {
+				if e := 2 * m.repAt(r, n1.T); e < thr {
+					thr = e
+				}
+			}
 			if n2.T-n1.Done > thr-time.Millisecond {
 				m.H.Probe("justified:repeat-interval")
 				continue
@@ -231,10 +239,11 @@ func checkRepeatOnTime(prop string, m *Model, v *Verdict) {
 			for x := range rs {
 				r = x
 			}
-			if r.RepeatInterval > m.retention() {
+			rep := m.repAt(r, n1.T)
+			if rep > m.retention() {
 				continue
 			}
-			deadline := n1.Done + r.RepeatInterval + r.GroupInterval + flushTimeout(r.GroupInterval) + c01Slack
+			deadline := n1.Done + rep + r.GroupInterval + flushTimeout(r.GroupInterval) + c01Slack
 			if deadline > m.P.Horizon-time.Second {
 				continue
 			}
@@ -265,7 +274,7 @@ func checkRepeatOnTime(prop string, m *Model, v *Verdict) {
 			if !found {
 				v.Fail(prop, prop+"/repeat-missing", deadline,
 					"group %s (%s/%d) was notified at %v (%s), stayed unchanged and healthy, but was not re-notified by %v (repeat_interval %v + group_interval %v + slack)",
-					k.GKey, k.Receiver, k.Integ, n1.Done, notifBrief(n1), deadline, r.RepeatInterval, r.GroupInterval)
+					k.GKey, k.Receiver, k.Integ, n1.Done, notifBrief(n1), deadline, rep, r.GroupInterval)
 			}
 		}
 	}
@@ -378,7 +387,23 @@ func checkResolved(prop string, m *Model, v *Verdict) {
 				}) || m.Suppressed(ls, e-eps) || m.Suppressed(ls, e) {
 					continue
 				}
-				if m.FaultIn(k.Receiver, k.Integ, n1.T, e+B) || m.Disturbed(n1.T, e+B) {
+				// the bound runs from the instant the integration is healthy again: a
+				// failed or timed-out delivery never discharges the obligation
+				c := e
+				for moved := true; moved; {
+					moved = false
+					for _, f := range m.P.Faults {
+						if (f.Inst == -1 || f.Inst == m.Inst) && f.Receiver == k.Receiver && f.Integ == k.Integ && f.From <= c+B && f.To >= c-flushTimeout(r.GroupInterval)-c01Slack && f.To > c {
+							c = f.To + time.Millisecond
+							moved = true
+						}
+					}
+				}
+				deadline := c + B + flushTimeout(r.GroupInterval)
+				if deadline > m.P.Horizon-time.Second || m.Disturbed(n1.T, deadline) {
+					continue
+				}
+				if c > e && !m.Throughout(e+B, deadline, cal, func(t Dur) bool { return !m.Firing(lk, t) && !m.Suppressed(ls, t) }) {
 					continue
 				}
 				// every integration of the receiver must have accepted n1's flush too, or the
@@ -386,25 +411,25 @@ func checkResolved(prop string, m *Model, v *Verdict) {
 				v.Ob("resolution-reported-at-next-flush")
 				found := false
 				for _, x := range s {
-					if x.OK() && x.Done > e-eps && x.Done <= e+B && x.Resolved()[lk] {
+					if x.OK() && x.Done > e-eps && x.Done <= deadline && x.Resolved()[lk] {
 						found = true
 					}
 				}
 				if !found {
 					sig := prop + "/resolution-not-reported"
-					exp := 2 * r.RepeatInterval
+					exp := 2 * m.repAt(r, n1.T)
 					if m.retention() < exp {
 						exp = m.retention()
 					}
-					if e-n1.Done > exp {
+					if c+r.GroupInterval-n1.Done > exp {
 						// the log entry of the last firing notification had expired (nothing was
 						// sent for longer than min(retention, 2*repeat_interval), e.g. because the
 						// alert was suppressed) before the alert resolved
 						sig += ":after-log-entry-expired"
 					}
-					v.Fail(prop, sig, e+B,
-						"alert %s was reported firing to %s/%d (group %s) at %v, resolved at %v and stayed resolved and unsuppressed, but no resolved notification followed by %v (group_interval %v)",
-						lk, k.Receiver, k.Integ, k.GKey, n1.Done, e, e+B, r.GroupInterval)
+					v.Fail(prop, sig, deadline,
+						"alert %s was reported firing to %s/%d (group %s) at %v, resolved at %v and stayed resolved and unsuppressed, the integration was healthy from %v on, but no resolved notification followed by %v (group_interval %v)",
+						lk, k.Receiver, k.Integ, k.GKey, n1.Done, e, c, deadline, r.GroupInterval)
 				}
 			}
 		}
